@@ -94,6 +94,8 @@ def run(rep, tier):
     rc = rep.rule("R17.c", "instruction builder: into_bytes lanes and opcode algebra agree with the encoder", floor=1)
     ok, found = _builder(cx, ev, exp)
     rep.ob(rc, "into_bytes", ok, "<&I as IntoBytes>::into_bytes byte lanes", expected="layout table", found=found)
+    rd = rep.rule("R17.d", "instruction builder: for every constructor and every combination of its enum arguments the opcode byte is the ISA opcode of that instruction", floor=95)
+    _builder_opcodes(cx, rep, rd)
     rep.trust("rustc front end / typed THIR", "byteorder::LittleEndian::read_i16/read_i32 (modelled as little-endian byte lanes)")
     rep.assume("register numbers 0-15 (4-bit fields)")
 
@@ -157,3 +159,94 @@ def _builder(cx, ev, exp):
         return False, "no 8-byte array literal (unrecognised-construct: %s)" % (outs[0][1].unrec[:2],)
     bad = [k for k in range(8) if not isinstance(arr[k], tuple) or T.lanes(arr[k]) != exp[k]]
     return not bad, "bytes differing: %s" % bad if bad else "all 8 bytes match"
+
+
+ALU = {"add": "add", "sub": "sub", "mul": "mul", "div": "div", "bit_or": "or", "bit_and": "and", "left_shift": "lsh",
+       "right_shift": "rsh", "negate": "neg", "modulo": "mod", "bit_xor": "xor", "mov": "mov", "signed_right_shift": "arsh"}
+SIZE = {"Byte": 1, "HalfWord": 2, "Word": 4, "DoubleWord": 8}
+COND = {"Abs": "ja", "Equals": "jeq", "Greater": "jgt", "GreaterEquals": "jge", "Lower": "jlt", "LowerEquals": "jle", "BitAnd": "jset",
+        "NotEquals": "jne", "GreaterSigned": "jsgt", "GreaterEqualsSigned": "jsge", "LowerSigned": "jslt", "LowerEqualsSigned": "jsle"}
+
+
+def _ref_opcode(meth, args):
+    """reference opcode from the ISA table for a builder constructor call, or None when the combination
+    is not an instruction of the ISA"""
+    def find(**kw):
+        c = [v for v, d in isa.TABLE.items() if all(d.get(k) == x for k, x in kw.items())]
+        return c[0] if len(c) == 1 else None
+    a = dict(args)
+    srcbit = {"Imm": "K", "Reg": "X"}.get(a.get("Source"))
+    width = {"X64": 64, "X32": 32}.get(a.get("Arch"))
+    if meth in ALU:
+        op = ALU[meth]
+        if op == "neg":
+            return find(kind="neg", width=width) if srcbit == "K" else None
+        return find(kind="alu", op=op, width=width, src=srcbit)
+    if meth == "swap_bytes":
+        return find(kind="end", op={"Little": "le", "Big": "be"}[a["Endian"]])
+    sz = SIZE.get(a.get("MemSize"))
+    if meth == "load":
+        return find(kind="lddw") if sz == 8 else None
+    if meth in ("load_abs", "load_ind", "load_x", "store", "store_x"):
+        return find(kind={"load_abs": "ldabs", "load_ind": "ldind", "load_x": "ldx", "store": "st", "store_x": "stx"}[meth], size=sz)
+    if meth == "jump_unconditional":
+        return find(kind="ja")
+    if meth == "jump_conditional":
+        c = COND.get(a.get("Cond"))
+        if c == "ja":
+            return find(kind="ja") if srcbit == "K" else None
+        return find(kind="jcond", op=c, width=64, src=srcbit)
+    if meth == "call":
+        return find(kind="call")
+    if meth == "exit":
+        return find(kind="exit")
+    return "?"
+
+
+def _builder_opcodes(cx, rep, rd):
+    import itertools
+    F = cx.F
+    ev = symex.Evaluator(F)
+    meths = sorted(p.rsplit("::", 1)[1] for p in F.fns if p.startswith("insn_builder::BpfCode::") and F.fns[p].get("thir")
+                   and not p.endswith("_internal") and p.rsplit("::", 1)[1] not in ("new", "default"))
+    n = 0
+    for m in meths:
+        path = "insn_builder::BpfCode::" + m
+        fn = F.fns[path]
+        ptys = [q["ty"] for q in fn["thir"]["params"]]
+        if not ptys or "BpfCode" not in ptys[0] or not fn.get("ret", fn.get("sig", "")) and False:
+            continue
+        enums = []
+        okm = True
+        for ty in ptys[1:]:
+            adt = F.adts.get(ty)
+            if not adt or adt["kind"] != "enum":
+                okm = False
+                break
+            enums.append((ty, [v["name"] for v in adt["variants"]]))
+        ret_ty = fn["thir"]["body"].get("ty", "")
+        if not okm or "insn_builder::" not in ret_ty:
+            continue            # not an instruction constructor (e.g. into_bytes helpers)
+        for combo in itertools.product(*[vs for _, vs in enums]):
+            args = [symex.struct(ty, vn, ()) for (ty, _), vn in zip(enums, combo)]
+            named = [(ty.rsplit("::", 1)[1], vn) for (ty, _), vn in zip(enums, combo)]
+            ref = _ref_opcode(m, named)
+            key = "%s(%s)" % (m, ",".join(vn for _, vn in named))
+            outs = ev.run_fn(path, [("obj", "code", ptys[0])] + args) or []
+            got = None
+            if len(outs) == 1 and isinstance(outs[0][0], tuple) and outs[0][0][0] == "struct":
+                st_ty = outs[0][0][1]
+                impl = [p for p in F.fns if p.endswith("as insn_builder::Instruction>::opt_code_byte") and ("<" + st_ty + "<") in p.replace(" ", "")]
+                if len(impl) == 1:
+                    o2 = ev.run_fn(impl[0], [outs[0][0]]) or []
+                    if len(o2) == 1 and T.is_k(o2[0][0]):
+                        got = o2[0][0][2]
+            if ref == "?":
+                rep.ob(rd, key, False, "builder constructor %s" % key, expected="a constructor known to the reference table", found="unknown constructor")
+                continue
+            if ref is None:
+                continue        # the combination is not an ISA instruction (the builder can spell it; outside the statement)
+            n += 1
+            rep.ob(rd, key, got == ref, "opcode byte of BpfCode::%s" % key, expected="%#04x" % ref, found=("%#04x" % got) if got is not None else "not a constant",
+                   sample=(key in ("add(Imm,X64)", "jump_conditional(Equals,Reg)")))
+    rep.info("builder_constructor_combinations", n)
